@@ -4,6 +4,7 @@ import Mathlib.Algebra.Group.Basic
 import Mathlib.Tactic.Ring
 import Mathlib.Tactic.Abel
 import Mathlib.Data.List.Nodup
+import Mathlib.Data.List.Perm.Subperm
 /-
 Spec definitions and helper lemmas for C16 (linear combinations and polynomials).
 
@@ -323,5 +324,387 @@ theorem coeff_smul {a : List (X × R)} (ha : WF a) (c : R) (y : X) : coeff (smul
   rw [coeff_eq_lsum (wf_smul ha c).1, lsum_smul (delta_additive y), coeff_eq_lsum ha.1, lsum_delta_mul]
 
 
+/-! ### generic sums -/
+
+theorem lsum_congr {g g' : X → R → A} {l : List (X × R)} (h : ∀ p ∈ l, g p.1 p.2 = g' p.1 p.2) :
+    lsum g l = lsum g' l := by
+  induction l with
+  | nil => rfl
+  | cons p t ih =>
+    simp only [lsum_cons]
+    rw [h p (by simp), ih (fun q hq => h q (List.mem_cons_of_mem _ hq))]
+
+theorem lsum_add_fun (g1 g2 : X → R → A) (l : List (X × R)) :
+    lsum (fun x r => g1 x r + g2 x r) l = lsum g1 l + lsum g2 l := by
+  induction l with
+  | nil => simp
+  | cons p t ih => simp only [lsum_cons, ih]; abel
+
+theorem lsum_zero_fun (l : List (X × R)) : lsum (fun _ _ => (0 : A)) l = 0 := by
+  induction l with
+  | nil => rfl
+  | cons p t ih => simp [ih]
+
+theorem lsum_comm {Y : Type} [DecidableEq Y] (h : X → R → Y → R → A) (a : List (X × R)) (b : List (Y × R)) :
+    lsum (fun x r => lsum (fun y s => h x r y s) b) a = lsum (fun y s => lsum (fun x r => h x r y s) a) b := by
+  induction a with
+  | nil => simp [lsum_zero_fun]
+  | cons p t ih => simp only [lsum_cons, ih, lsum_add_fun]
+
+theorem lsum_map_pair {Y : Type} [DecidableEq Y] (g : X → R → A) (fx : Y → X) (fr : R → R) (b : List (Y × R)) :
+    lsum g (b.map (fun q => (fx q.1, fr q.2))) = lsum (fun y s => g (fx y) (fr s)) b := by
+  induction b with
+  | nil => rfl
+  | cons p t ih => simp [ih]
+
+theorem lsum_pairs (g : X → R → A) (f : X → X → X) (a b : List (X × R)) :
+    lsum g (pairs f a b) = lsum (fun x r => lsum (fun y s => g (f x y) (r * s)) b) a := by
+  induction a with
+  | nil => rfl
+  | cons p t ih =>
+    unfold pairs at *
+    simp only [List.flatMap_cons, lsum_append, ih, lsum_cons]
+    congr 1
+    exact lsum_map_pair g (fun y => f p.1 y) (fun s => p.2 * s) b
+
+theorem lsum_combine {g : X → R → A} (hg : Additive g) (f : X → X → X) (a b : List (X × R)) :
+    lsum g (combine f a b) = lsum (fun x r => lsum (fun y s => g (f x y) (r * s)) b) a := by
+  rw [combine, lsum_fromIter hg, lsum_pairs]
+
+theorem wf_combine (f : X → X → X) (a b : List (X × R)) : WF (combine f a b) := wf_fromIter _
+
+/-- a linear functional of a (bi)linear expression in the coefficient is linear -/
+theorem additive_inner {Y : Type} [DecidableEq Y] {g : X → R → A} (hg : Additive g) (f : X → Y → X) (b : List (Y × R)) :
+    Additive (fun x r => lsum (fun y s => g (f x y) (r * s)) b) := by
+  constructor
+  · intro x; simp [hg.zero, lsum_zero_fun]
+  · intro x r s
+    rw [← lsum_add_fun]
+    apply lsum_congr; intro p _; simp [add_mul, hg.add]
+
+theorem additive_left {g : X → R → A} (hg : Additive g) (f : X → X) (c : R) :
+    Additive (fun x r => g (f x) (c * r)) :=
+  ⟨fun x => by simp [hg.zero], fun x r s => by simp [mul_add, hg.add]⟩
+
+theorem additive_right {g : X → R → A} (hg : Additive g) (f : X → X) (c : R) :
+    Additive (fun x r => g (f x) (r * c)) :=
+  ⟨fun x => by simp [hg.zero], fun x r s => by simp [add_mul, hg.add]⟩
+
+theorem additive_neg {g : X → R → A} (hg : Additive g) : Additive (fun x r => g x (-r)) :=
+  ⟨fun x => by simp [hg.zero], fun x r s => by rw [neg_add, hg.add]⟩
+
 end LcProofs
+
+/-! ## polynomials: the monomials form a commutative monoid -/
+section PolyProofs
+variable {M R A : Type} [DecidableEq M] [CommMonoid M] [DecidableEq R] [CommRing R] [AddCommMonoid A]
+
+theorem lsum_mul {g : M → R → A} (hg : Additive g) (a b : List (M × R)) :
+    lsum g (mul a b) = lsum (fun x r => lsum (fun y s => g (x * y) (r * s)) b) a :=
+  lsum_combine hg _ a b
+
+theorem wf_mul (a b : List (M × R)) : WF (mul a b) := wf_combine _ a b
+
+theorem lsum_mul_comm {g : M → R → A} (hg : Additive g) (a b : List (M × R)) :
+    lsum g (mul a b) = lsum g (mul b a) := by
+  rw [lsum_mul hg, lsum_mul hg, lsum_comm]
+  apply lsum_congr; intro p _; apply lsum_congr; intro q _
+  rw [mul_comm q.1, mul_comm q.2]
+
+theorem lsum_mul_assoc {g : M → R → A} (hg : Additive g) (a b c : List (M × R)) :
+    lsum g (mul (mul a b) c) = lsum g (mul a (mul b c)) := by
+  rw [lsum_mul hg, lsum_mul (additive_inner hg (fun x y => x * y) c), lsum_mul hg]
+  apply lsum_congr; intro p _
+  rw [lsum_mul (additive_left hg (fun y => p.1 * y) p.2)]
+  apply lsum_congr; intro q _
+  apply lsum_congr; intro t _
+  simp only [mul_assoc]
+
+theorem lsum_mul_add {g : M → R → A} (hg : Additive g) (a b c : List (M × R)) :
+    lsum g (mul a (addAssign b c)) = lsum g (mul a b) + lsum g (mul a c) := by
+  rw [lsum_mul hg, lsum_mul hg, lsum_mul hg, ← lsum_add_fun]
+  apply lsum_congr; intro p _
+  exact lsum_addAssign (additive_left hg (fun y => p.1 * y) p.2) b c
+
+theorem lsum_add_mul {g : M → R → A} (hg : Additive g) (a b c : List (M × R)) :
+    lsum g (mul (addAssign a b) c) = lsum g (mul a c) + lsum g (mul b c) := by
+  rw [lsum_mul hg, lsum_mul hg, lsum_mul hg]
+  exact lsum_addAssign (additive_inner hg (fun x y => x * y) c) a b
+
+theorem lsum_mul_one {g : M → R → A} (hg : Additive g) (a : List (M × R)) :
+    lsum g (mul a (fromConst 1)) = lsum g a := by
+  rw [lsum_mul hg]
+  apply lsum_congr; intro p _
+  rw [fromConst, lsum_fromIter (additive_left hg (fun y => p.1 * y) p.2)]
+  simp
+
+/-! ### the special cases of `*=` -/
+
+theorem isConst_cases {b : List (M × R)} (hb : WF b) (hc : isConst b = true) :
+    b = [] ∨ ∃ c, c ≠ 0 ∧ b = [((1 : M), c)] := by
+  match b, hb, hc with
+  | [], _, _ => exact Or.inl rfl
+  | [p], hb, hc =>
+    right
+    refine ⟨p.2, hb.2 p (by simp), ?_⟩
+    simp [isConst] at hc
+    cases p; simp_all
+  | p :: q :: t, hb, hc =>
+    exfalso
+    simp [isConst] at hc
+    have := hb.1
+    simp [hc.1, hc.2.1] at this
+
+theorem lsum_smul_const {g : M → R → A} (hg : Additive g) (a : List (M × R)) (c : R) :
+    lsum g (smul a c) = lsum g (mul a (fromConst c)) := by
+  rw [lsum_smul hg, lsum_mul hg]
+  apply lsum_congr; intro p _
+  rw [fromConst, lsum_fromIter (additive_left hg (fun y => p.1 * y) p.2)]
+  simp
+
+theorem lsum_fromConst_zero (g : M → R → A) : lsum g (fromConst (0 : R) : List (M × R)) = 0 := by
+  simp [fromConst, fromIter, addPair, clean]
+
+theorem fromConst_of_ne {c : R} (hc : c ≠ 0) : (fromConst c : List (M × R)) = [((1 : M), c)] := by
+  simp [fromConst, fromIter, addPair, clean, hc, upd]
+
+theorem fromConst_zero : (fromConst (0 : R) : List (M × R)) = [] := by
+  simp [fromConst, fromIter, addPair, clean]
+
+/-- a well-formed constant polynomial is `from_const` of its constant term -/
+theorem eq_fromConst_of_isConst {b : List (M × R)} (hb : WF b) (hc : isConst b = true) :
+    b = fromConst (constTerm b) := by
+  rcases isConst_cases hb hc with rfl | ⟨c, hc0, rfl⟩
+  · simp [constTerm, coeff, fromConst_zero]
+  · simp [constTerm, coeff, fromConst_of_ne hc0]
+
+/-- in the zero ring every linear functional vanishes -/
+theorem lsum_eq_zero_of_subsingleton {g : M → R → A} (hg : Additive g) (h01 : (0 : R) = 1)
+    (a : List (M × R)) : lsum g a = 0 := by
+  have all0 : ∀ r : R, r = 0 := fun r => by rw [← mul_one r, ← h01, mul_zero]
+  induction a with
+  | nil => rfl
+  | cons p t ih => simp [ih, all0 p.2, hg.zero]
+
+theorem lsum_mulAssign {g : M → R → A} (hg : Additive g) {a b : List (M × R)} (ha : WF a) (hb : WF b) :
+    lsum g (mulAssign a b) = lsum g (mul a b) := by
+  unfold mulAssign
+  by_cases h1 : isOne b = true
+  · rw [if_pos h1]
+    simp only [isOne, Bool.and_eq_true, decide_eq_true_eq] at h1
+    have hb' := eq_fromConst_of_isConst hb h1.1
+    rw [hb', h1.2, lsum_mul_one hg]
+  · rw [if_neg h1]
+    by_cases h2 : isConst b = true
+    · rw [if_pos h2]
+      have hb' := eq_fromConst_of_isConst hb h2
+      rw [lsum_smul_const hg]; rw [← hb']
+    · rw [if_neg h2]
+      by_cases h3 : isConst a = true
+      · rw [if_pos h3]
+        have ha' := eq_fromConst_of_isConst ha h3
+        rw [lsum_smul_const hg, ← ha', lsum_mul_comm hg]
+      · rw [if_neg h3]
+
+theorem wf_mulAssign {a b : List (M × R)} (ha : WF a) (hb : WF b) : WF (mulAssign a b) := by
+  unfold mulAssign
+  split
+  · exact ha
+  · split
+    · exact wf_smul ha _
+    · split
+      · exact wf_smul hb _
+      · exact wf_mul a b
+
+/-! ### evaluation -/
+
+theorem foldl_add_eq (l : List R) (acc : R) : l.foldl (· + ·) acc = acc + l.foldl (· + ·) 0 := by
+  induction l generalizing acc with
+  | nil => simp
+  | cons x t ih => simp only [List.foldl_cons]; rw [ih (acc + x), ih (0 + x)]; ring
+
+theorem evalWith_eq_lsum (me : M → R) (a : List (M × R)) : evalWith me a = lsum (fun x r => r * me x) a := by
+  unfold evalWith sumR
+  induction a with
+  | nil => rfl
+  | cons p t ih => simp only [List.map_cons, List.foldl_cons, lsum_cons]; rw [foldl_add_eq, ih]; ring
+
+theorem evalFun_additive (me : M → R) : Additive (fun x (r : R) => r * me x) :=
+  ⟨fun x => by simp, fun x r s => by ring⟩
+
+theorem lsum_mul_left (c : R) (g : M → R → R) (l : List (M × R)) : lsum (fun x r => c * g x r) l = c * lsum g l := by
+  induction l with
+  | nil => simp
+  | cons p t ih => simp only [lsum_cons, ih]; ring
+
+theorem lsum_mul_right (c : R) (g : M → R → R) (l : List (M × R)) : lsum (fun x r => g x r * c) l = lsum g l * c := by
+  induction l with
+  | nil => simp
+  | cons p t ih => simp only [lsum_cons, ih]; ring
+
+theorem evalWith_mul (me : M → R) (hme : ∀ x y, me (x * y) = me x * me y) (a b : List (M × R)) :
+    evalWith me (mul a b) = evalWith me a * evalWith me b := by
+  rw [evalWith_eq_lsum, evalWith_eq_lsum, evalWith_eq_lsum, lsum_mul (evalFun_additive me), ← lsum_mul_right]
+  apply lsum_congr; intro p _
+  rw [← lsum_mul_left]
+  apply lsum_congr; intro q _
+  simp only [hme]; ring
+
+theorem powNat_add (x : R) (m n : Nat) : powNat x (m + n) = powNat x m * powNat x n := by
+  induction n with
+  | zero => simp [powNat]
+  | succ k ih => rw [← Nat.add_assoc]; simp only [powNat, ih]; ring
+
+end PolyProofs
+/-! ### equality, `is_zero`, `nterms`, lead term -/
+section Semantics
+variable {X R : Type} [DecidableEq X] [DecidableEq R] [CommRing R]
+
+theorem lookup?_of_mem {b : List (X × R)} (h : (keys b).Nodup) {p : X × R} (hp : p ∈ b) :
+    lookup? b p.1 = some p.2 := by
+  induction b with
+  | nil => cases hp
+  | cons q t ih =>
+    obtain ⟨k, v⟩ := q
+    simp only [keys, List.map_cons, List.nodup_cons] at h
+    rcases List.mem_cons.mp hp with e | hm
+    · subst e; simp [lookup?]
+    · have : k ≠ p.1 := by
+        intro e; apply h.1; rw [e]; exact List.mem_map.mpr ⟨p, hm, rfl⟩
+      simp [lookup?, this]; exact ih h.2 hm
+
+theorem mem_of_lookup? {b : List (X × R)} {k : X} {v : R} (h : lookup? b k = some v) : (k, v) ∈ b := by
+  induction b with
+  | nil => simp [lookup?] at h
+  | cons q t ih =>
+    obtain ⟨k', v'⟩ := q
+    unfold lookup? at h
+    by_cases e : k' = k
+    · subst e; simp at h; subst h; simp
+    · simp only [e, if_false] at h; exact List.mem_cons_of_mem _ (ih h)
+
+/-- `==` on well-formed values is equality of the denoted coefficient functions -/
+theorem eqv_iff {a b : List (X × R)} (ha : WF a) (hb : WF b) :
+    eqv a b = true ↔ ∀ x, coeff a x = coeff b x := by
+  constructor
+  · intro h
+    simp only [eqv, Bool.and_eq_true, beq_iff_eq, List.all_eq_true] at h
+    obtain ⟨hl, hall⟩ := h
+    have hsub : a ⊆ b := fun p hp => by
+      have := mem_of_lookup? (hall p hp); simpa using this
+    have hp : a.Perm b :=
+      (List.subperm_of_subset (nodup_of_wf ha) hsub).perm_of_length_le (le_of_eq hl.symm)
+    exact coeff_perm ha.1 hp
+  · intro h
+    have hp := perm_of_coeff_eq ha hb h
+    simp only [eqv, Bool.and_eq_true, beq_iff_eq, List.all_eq_true]
+    exact ⟨hp.length_eq, fun p hpa => lookup?_of_mem hb.1 (hp.subset hpa)⟩
+
+theorem isZero_iff {a : List (X × R)} (ha : WF a) : isZero a = true ↔ ∀ x, coeff a x = 0 := by
+  cases a with
+  | nil => simp [isZero, coeff]
+  | cons p t =>
+    simp only [isZero, List.isEmpty_cons, Bool.false_eq_true, false_iff]
+    intro h
+    have := coeff_of_mem ha.1 (p := p) (by simp)
+    exact ha.2 p (by simp) (by rw [← this, h])
+
+/-- `nterms` is the length of a duplicate-free enumeration of the support -/
+theorem nterms_eq (a : List (X × R)) : nterms a = (keys a).length := by simp [nterms, keys]
+
+end Semantics
+
+section Lead
+variable {M R : Type} [DecidableEq M] [One M] [DecidableEq R] [CommRing R]
+
+/-- the laws of a total order given by a three-way comparison, on the monomials satisfying `P` -/
+structure OrdLaws (P : M → Prop) (cmp : M → M → Ordering) : Prop where
+  eq_iff : ∀ x y, P x → P y → (cmp x y = .eq ↔ x = y)
+  swap : ∀ x y, P x → P y → cmp y x = (cmp x y).swap
+  trans : ∀ x y z, P x → P y → P z → cmp x y ≠ .gt → cmp y z ≠ .gt → cmp x z ≠ .gt
+
+theorem OrdLaws.refl {P : M → Prop} {cmp : M → M → Ordering} (h : OrdLaws P cmp) {x : M} (hx : P x) :
+    cmp x x = .eq := (h.eq_iff x x hx hx).mpr rfl
+
+def step (cmp : M → M → Ordering) (acc q : M × R) : M × R := if cmp acc.1 q.1 = .gt then acc else q
+
+theorem foldl_step_spec {P : M → Prop} {cmp : M → M → Ordering} (h : OrdLaws P cmp)
+    (t : List (M × R)) (p : M × R) (hP : ∀ q ∈ p :: t, P q.1) :
+    let r := t.foldl (step cmp) p
+    r ∈ p :: t ∧ ∀ q ∈ p :: t, cmp q.1 r.1 ≠ .gt := by
+  induction t generalizing p with
+  | nil =>
+    simp only [List.foldl_nil, List.mem_singleton, forall_eq, true_and]
+    rw [h.refl (hP p (by simp))]; simp
+  | cons q t ih =>
+    have hp : P p.1 := hP p (by simp)
+    have hq : P q.1 := hP q (by simp)
+    have hstep : step cmp p q = p ∨ step cmp p q = q := by unfold step; split <;> simp
+    have hP' : ∀ s ∈ step cmp p q :: t, P s.1 := by
+      intro s hs
+      rcases List.mem_cons.mp hs with e | hm
+      · rcases hstep with e' | e' <;> (rw [e, e']; assumption)
+      · exact hP s (by simp [hm])
+    obtain ⟨hmem, hmax⟩ := ih (step cmp p q) hP'
+    have hr : P ((t.foldl (step cmp) (step cmp p q)).1) := hP' _ hmem
+    simp only [List.foldl_cons]
+    refine ⟨?_, ?_⟩
+    · rcases List.mem_cons.mp hmem with e | hm
+      · rw [e]; rcases hstep with e' | e' <;> rw [e'] <;> simp
+      · simp [hm]
+    · intro s hs
+      have hmid := hmax (step cmp p q) (by simp)
+      rcases List.mem_cons.mp hs with e | hs
+      · subst e
+        refine h.trans _ _ _ hp (hP' _ (by simp)) hr ?_ hmid
+        unfold step; split
+        · rw [h.refl hp]; simp
+        · assumption
+      · rcases List.mem_cons.mp hs with e | hs
+        · subst e
+          refine h.trans _ _ _ hq (hP' _ (by simp)) hr ?_ hmid
+          unfold step; split
+          · rename_i hgt; rw [h.swap _ _ hp hq, hgt]; simp [Ordering.swap]
+          · rw [h.refl hq]; simp
+        · exact hmax s (by simp [hs])
+
+/-- `lead_term` of a non-zero polynomial is a stored term whose monomial is maximal -/
+theorem leadTerm_spec {P : M → Prop} {cmp : M → M → Ordering} (h : OrdLaws P cmp)
+    {a : List (M × R)} (hP : ∀ q ∈ a, P q.1) (hne : a ≠ []) :
+    leadTerm cmp a ∈ a ∧ ∀ q ∈ a, cmp q.1 (leadTerm cmp a).1 ≠ .gt := by
+  cases a with
+  | nil => exact absurd rfl hne
+  | cons p t =>
+    simp only [leadTerm, maxBy, Option.getD_some]
+    exact foldl_step_spec h t p hP
+
+/-- a maximal stored term is unique under the invariant, so `lead_term` does not depend on the iteration order -/
+theorem leadTerm_unique {P : M → Prop} {cmp : M → M → Ordering} (h : OrdLaws P cmp)
+    {a : List (M × R)} (ha : WF a) (hP : ∀ q ∈ a, P q.1) {r : M × R} (hr : r ∈ a)
+    (hmax : ∀ q ∈ a, cmp q.1 r.1 ≠ .gt) : leadTerm cmp a = r := by
+  have hne : a ≠ [] := by intro e; subst e; cases hr
+  obtain ⟨hm, hx⟩ := leadTerm_spec h hP hne
+  have h1 := hmax _ hm
+  have h2 := hx _ hr
+  have hk : (leadTerm cmp a).1 = r.1 := by
+    apply (h.eq_iff _ _ (hP _ hm) (hP _ hr)).mp
+    rw [h.swap _ _ (hP _ hm) (hP _ hr)] at h2
+    cases hc : cmp (leadTerm cmp a).1 r.1 <;> simp_all [Ordering.swap]
+  have e1 := coeff_of_mem ha.1 hm
+  have e2 := coeff_of_mem ha.1 hr
+  rw [hk] at e1
+  exact Prod.ext hk (by rw [← e1, e2])
+
+theorem leadTerm_perm {P : M → Prop} {cmp : M → M → Ordering} (h : OrdLaws P cmp)
+    {a b : List (M × R)} (ha : WF a) (hP : ∀ q ∈ a, P q.1) (hab : a.Perm b) :
+    leadTerm cmp a = leadTerm cmp b := by
+  by_cases hne : a = []
+  · subst hne; rw [List.Perm.nil_eq hab]
+  · have hb : b ≠ [] := fun e => hne (by subst e; exact List.Perm.eq_nil hab)
+    have hPb : ∀ q ∈ b, P q.1 := fun q hq => hP q (hab.symm.subset hq)
+    obtain ⟨hm, hx⟩ := leadTerm_spec h hPb hb
+    exact leadTerm_unique h ha hP (hab.symm.subset hm) (fun q hq => hx q (hab.subset hq))
+
+end Lead
+
 end Yuiv.C16
